@@ -15,7 +15,9 @@ import (
 func init() { register("C14", propC14) }
 
 type connInfo struct {
-	fn        *ssa.Function
+	fn        *ssa.Function // the function that runs the frame loop
+	setup     *ssa.Function // the function that reads the header and builds recorders/processor (== fn unless the loop was split off)
+	loopCall  *ssa.Call     // in setup: the call that leads to fn (nil when setup == fn)
 	reader    ssa.Value // the bufio.Reader
 	hdrCall   *ssa.Call
 	hdrArg    int // which argument of hdrCall is the reader (0 for headers.ReadHeaderInfo itself)
@@ -27,6 +29,29 @@ type connInfo struct {
 	process   *ssa.Call
 	buf       ssa.Value
 	err       error
+}
+
+// inSetup maps a value of the loop function to the value the set-up function passed for it (parameters of a split-off
+// loop stage); other values are returned unchanged.
+func (ci *connInfo) inSetup(v ssa.Value) ssa.Value {
+	v = unwrapIface(v)
+	if ci.loopCall == nil {
+		return v
+	}
+	for i, p := range ci.fn.Params {
+		if v == ssa.Value(p) && i < len(ci.loopCall.Call.Args) {
+			return unwrapIface(ci.loopCall.Call.Args[i])
+		}
+	}
+	return v
+}
+
+// handlerFuncs: the functions that make up the connection handler (set-up and loop).
+func (ci *connInfo) handlerFuncs() []*ssa.Function {
+	if ci.setup != nil && ci.setup != ci.fn {
+		return []*ssa.Function{ci.setup, ci.fn}
+	}
+	return []*ssa.Function{ci.fn}
 }
 
 // analyseHandleConn finds the frame loop's anchors in the recorder's connection handler.
@@ -103,6 +128,39 @@ func analyseHandleConn(w *World) *connInfo {
 			}
 		}
 	}
+	ci.setup = ci.fn
+	if ci.hdrCall == nil {
+		// the frame loop split off into a stage of its own: the header is read by the (single) caller that hands the
+		// reader down; that caller is the set-up part of the handler
+		cur := ci.fn
+		for lvl := 0; lvl < 2 && ci.hdrCall == nil; lvl++ {
+			cs := w.callersOf(cur)
+			if len(cs) != 1 || cs[0].Pkg != ci.fn.Pkg {
+				break
+			}
+			var calls []*ssa.Call
+			for _, b := range cs[0].Blocks {
+				for _, in := range b.Instrs {
+					if c, ok := in.(*ssa.Call); ok && c.Call.StaticCallee() == cur {
+						calls = append(calls, c)
+					}
+				}
+			}
+			if len(calls) != 1 || lvl > 0 {
+				break // one level of splitting is followed
+			}
+			for _, b := range cs[0].Blocks {
+				for _, in := range b.Instrs {
+					if c, ok := in.(*ssa.Call); ok && calleeName(c) == "headers.ReadHeaderInfo" {
+						ci.hdrCall = c
+						ci.setup = cs[0]
+						ci.loopCall = calls[0]
+					}
+				}
+			}
+			cur = cs[0]
+		}
+	}
 	if ci.hdrCall == nil || len(fulls) != 2 || ci.process == nil {
 		ci.err = fmt.Errorf("anchors not found: header read=%v, ReadFull calls=%d, Process=%v", ci.hdrCall != nil, len(fulls), ci.process != nil)
 		return ci
@@ -168,7 +226,7 @@ func propC14(w *World, r *Report) {
 		return
 	}
 	// ---- M3: single reader
-	checkSingleBufferedReader(w, r, e, "M3", "header and both frame reads use the same bufio.Reader", ci.fn, ci.hdrCall, []*ssa.Call{ci.probe, ci.rest})
+	checkSingleBufferedReader(w, r, e, "M3", "header and both frame reads use the same bufio.Reader", ci.handlerFuncs(), ci.hdrCall, []*ssa.Call{ci.probe, ci.rest}, ci.inSetup)
 	// ---- M2
 	pbase, plo, phi, ok1 := sliceParts(ci.probe.Call.Args[1])
 	rbase, rlo, rhi, ok2 := sliceParts(ci.rest.Call.Args[1])
@@ -378,6 +436,33 @@ func propC14(w *World, r *Report) {
 	}
 	for _, b := range rhBlocks {
 		for _, in := range b.Instrs {
+			// a look-up inside a keyed accessor: accessor(..., "Key", ...) whose body looks its parameter up and
+			// asserts the type
+			if c, isCall := in.(*ssa.Call); isCall {
+				if callee := c.Call.StaticCallee(); callee != nil && len(callee.Blocks) > 0 && w.IsRepoFunc(callee) {
+					for ai, a := range c.Call.Args {
+						kc, isC := a.(*ssa.Const)
+						if !isC || kc.Value == nil || kc.Value.Kind() != constant.String || ai >= len(callee.Params) {
+							continue
+						}
+						for _, cb := range callee.Blocks {
+							for _, cin := range cb.Instrs {
+								if plk, isLk := cin.(*ssa.Lookup); isLk && plk.Index == ssa.Value(callee.Params[ai]) {
+									var pat types.Type
+									if refs := plk.Referrers(); refs != nil {
+										for _, rf := range *refs {
+											if ta, ok := rf.(*ssa.TypeAssert); ok {
+												pat = ta.AssertedType
+											}
+										}
+									}
+									reader[constant.StringVal(kc.Value)] = kv{typ: pat, pos: w.InstrPos(c)}
+								}
+							}
+						}
+					}
+				}
+			}
 			lk, ok := in.(*ssa.Lookup)
 			if !ok {
 				continue
@@ -745,11 +830,11 @@ func checkHandleConnMarkerCI(w *World, r *Report, ci *connInfo, rule string) {
 // a bufio.NewReader(conn), every frame read uses that same reader, no second buffered reader is made in the function
 // and the connection value is not read directly (bytes the header parse left in the buffer would be skipped and every
 // later frame boundary shifted, depending on how the stream was segmented).
-func checkSingleBufferedReader(w *World, r *Report, e *termEnv, rule, construct string, fn *ssa.Function, hdrCall *ssa.Call, reads []*ssa.Call) {
+func checkSingleBufferedReader(w *World, r *Report, e *termEnv, rule, construct string, fns []*ssa.Function, hdrCall *ssa.Call, reads []*ssa.Call, origin func(ssa.Value) ssa.Value) {
 	hdrRd := unwrapIface(hdrCall.Call.Args[hdrArgOf(hdrCall)])
 	same := len(reads) > 0
 	for _, c := range reads {
-		if unwrapIface(c.Call.Args[0]) != hdrRd {
+		if origin(c.Call.Args[0]) != hdrRd {
 			same = false
 		}
 	}
@@ -797,10 +882,12 @@ func checkSingleBufferedReader(w *World, r *Report, e *termEnv, rule, construct 
 	}
 	visit(base)
 	nr := 0
-	for _, b := range fn.Blocks {
-		for _, in := range b.Instrs {
-			if c, ok := in.(*ssa.Call); ok && strings.HasPrefix(calleeName(c), "bufio.NewReader") {
-				nr++
+	for _, fn := range fns {
+		for _, b := range fn.Blocks {
+			for _, in := range b.Instrs {
+				if c, ok := in.(*ssa.Call); ok && strings.HasPrefix(calleeName(c), "bufio.NewReader") {
+					nr++
+				}
 			}
 		}
 	}
@@ -832,7 +919,9 @@ func ctorCallIn(fn *ssa.Function, c *ssa.Call, ctor *ssa.Function) *ssa.Call {
 	if callee == ctor {
 		return c
 	}
-	if callee.Parent() != fn || len(callee.Params) != 0 {
+	if !(callee.Parent() == fn && len(callee.Params) == 0) && !(callee.Pkg == fn.Pkg && callee.Parent() == nil && len(callee.Blocks) == 1) {
+		// a local factory closure, or a straight-line factory function of the same package (its parameters are bound to
+		// the call's arguments by factoryEnv)
 		return nil
 	}
 	var inner *ssa.Call
@@ -851,6 +940,21 @@ func ctorCallIn(fn *ssa.Function, c *ssa.Call, ctor *ssa.Function) *ssa.Call {
 		inner = ic
 	}
 	return inner
+}
+
+// factoryEnv: the term environment in which the arguments of the inner constructor call of a factory are to be read:
+// for a factory function with parameters, those are bound to the terms of the outer call's arguments.
+func factoryEnv(e *termEnv, outer, inner *ssa.Call) *termEnv {
+	if outer == inner || inner.Parent() == outer.Parent() || len(inner.Parent().Params) == 0 {
+		return e
+	}
+	ce := e.child()
+	for i, p := range inner.Parent().Params {
+		if i < len(outer.Call.Args) {
+			ce.bind[p] = e.termOf(outer.Call.Args[i])
+		}
+	}
+	return ce
 }
 
 // canBypass: is there a path from block `from` that reaches one of `stops` (or leaves the function) without passing
